@@ -122,7 +122,11 @@ func (h *Hub) ServeHTTP(w http.ResponseWriter, r *http.Request) {
 	remoteService = service
 
 	// don't allow a second connection
+	// the decision and the registration of the connection have to be one step,
+	// otherwise a further connection to this SKI can slip in between and both are kept
+	h.muxConKeep.Lock()
 	if !h.keepThisConnection(conn, true, remoteService) {
+		h.muxConKeep.Unlock()
 		_ = conn.Close()
 		return
 	}
@@ -130,9 +134,11 @@ func (h *Hub) ServeHTTP(w http.ResponseWriter, r *http.Request) {
 	dataHandler := ws.NewWebsocketConnection(conn, remoteService.SKI())
 	shipConnection := ship.NewConnectionHandler(h, dataHandler, ship.ShipRoleServer,
 		h.localService.ShipID(), remoteService.SKI(), remoteService.ShipID())
-	shipConnection.Run()
 
 	h.registerConnection(shipConnection)
+	h.muxConKeep.Unlock()
+
+	shipConnection.Run()
 }
 
 // return if there is a connection for a SKI
@@ -206,7 +212,11 @@ func (h *Hub) connectFoundService(remoteService *api.ServiceDetails, host, port,
 		return errors.New(errorString)
 	}
 
+	// the decision and the registration of the connection have to be one step,
+	// otherwise a further connection to this SKI can slip in between and both are kept
+	h.muxConKeep.Lock()
 	if !h.keepThisConnection(conn, false, remoteService) {
+		h.muxConKeep.Unlock()
 		errorString := fmt.Sprintf("closing connection to %s: ignoring this connection", remoteService.SKI())
 		return errors.New(errorString)
 	}
@@ -217,6 +227,7 @@ func (h *Hub) connectFoundService(remoteService *api.ServiceDetails, host, port,
 
 	// make the connection known before it runs, so removing or cancelling the pairing finds it from now on
 	h.registerConnection(shipConnection)
+	h.muxConKeep.Unlock()
 
 	// the pairing may have been removed or cancelled while this connection was being
 	// established. Those calls could not find the connection then, so it has to be ended here
